@@ -171,6 +171,7 @@ Run(st, line) == IF line = <<>> THEN st ELSE Run(Step(st, Head(line)), Tail(line
 EnvOf(envv, it) == IF it.env = "" THEN "UNSET" ELSE envv[it.env]
 
 \* value of one named item from its occurrences (environment only when absent from the line)
+HasGFlag(it) == "gflag" \in DOMAIN it /\ it.gflag
 NamedVal(f, it, envv) ==
   LET occ0 == f.acc[it.id]
       ev   == EnvOf(envv, it)
@@ -189,7 +190,11 @@ NamedVal(f, it, envv) ==
       vs   == [k \in DOMAIN occ |-> Cv(occ[k])]
       Miss == [ok |-> FALSE, why |-> [k |-> "missing", id |-> it.id]]
       Many == [ok |-> FALSE, why |-> [k |-> "toomany", id |-> it.id]] IN
-  IF it.kind = "switch" THEN (IF Len(occ0) > 1 THEN Many ELSE [ok |-> TRUE, v |-> (n >= 1)])
+  IF it.kind = "switch" THEN (IF Len(occ0) > 1 THEN Many
+                             \* a validation that refuses the switch: fails whenever it is on (typed or from its variable)
+                             ELSE IF n >= 1 /\ HasGFlag(it) THEN [ok |-> FALSE, why |-> [k |-> "guard", id |-> it.id, w |-> "", o |-> 1,
+                                                                                    fromenv |-> (occ0 = <<>>)]]
+                             ELSE [ok |-> TRUE, v |-> (n >= 1)])
   ELSE IF bad # {} /\ catches THEN [ok |-> FALSE, why |-> [k |-> "unexpected", id |-> it.id, caught |-> TRUE]]
   ELSE IF bad # {}
        THEN LET k == CHOOSE k \in bad : \A j \in bad : k <= j IN
